@@ -122,7 +122,7 @@ theorem first_contact (C : Crypto) (hC : HashWF C) (bs : Array Bytes) (tw : Tree
       ∧ tr.commit cs = .ok tr'
       ∧ Sparse C bs bs.size tr' fr ∧ tr'.roots = RefTree.roots C bs ∧ tr'.fork = tw.fork ∧ tr'.signature = some sig := by
   have hw := UpgradeComplete.create_upgrade_from0 C bs tw fw hW.roots hW.nodes hW.small hW.nonempty sig hW.hsig
-  obtain ⟨cs, h1, h2, h3, h4, h5, h6, h7, h8, h9, h10⟩ := UpgradeComplete.fresh_upgrade_accepted C bs hW.small hW.nonempty tw.fork pk sig
+  obtain ⟨cs, h1, h2, h3, h4, h5, h6, h7, h8, h9, h10, _⟩ := UpgradeComplete.fresh_upgrade_accepted C bs hW.small hW.nonempty tw.fork pk sig
     tr.changeset (by simp [Tree.changeset, hr]) (by simp [Tree.changeset, hS.length]) hW.siglen hW.verifies
   obtain ⟨tr', hc, hS', hr', hf', hs'⟩ := upgrade_commit_sparse C hC bs tr fr hS cs h2 h3 (by simpa [Tree.changeset] using h6) h7
     (by simpa [Tree.changeset] using h8) (by simpa [Tree.changeset] using h9) (by simpa [Tree.changeset] using h10)
